@@ -412,35 +412,87 @@ Proof.
   - destruct (IH ys x eq_refl Hin) as [y' [Hy Hi]]. exists y'. split; [exact Hy|right; exact Hi].
 Qed.
 
-(* ------------------------------------------------------------------ conversion does not depend on the configurable limits *)
-Definition conv_eq (a b : option dtype) : Prop :=
-  match a, b with
-  | Some x, Some y => forall v, conv x v = conv y v
-  | None, None => True
-  | _, _ => False
+(* ------------------------------------------------------------------ the datatype a Param entry configures *)
+(* one item of a Param dict acting on (datatype, unit): a key that is no Parameter property goes to
+   datatype.setProperty (a refused override leaves the constructor: no created module, the state is kept here) *)
+Definition dtu (p : param) : option dtype * str := (p_dt p, p_unit p).
+Definition over_step (s : option dtype * str) (kv : str * pyval) : option dtype * str :=
+  match pprop_type param_props (fst kv), fst s with
+  | None, Some d => match dt_setprop d (snd s) (fst kv) (snd kv) with Some (d', u') => (Some d', u') | None => s end
+  | _, _ => s
   end.
-Lemma conv_eq_refl a : conv_eq a a.
-Proof. destruct a; simpl; auto. Qed.
-Lemma conv_eq_trans a b c : conv_eq a b -> conv_eq b c -> conv_eq a c.
-Proof. destruct a, b, c; simpl; intros; try contradiction; auto. rewrite H. apply H0. Qed.
+Definition configured (s : option dtype * str) (en : entry) : option dtype * str := fold_left over_step en s.
+(* the CONFIGURED datatype: the class-level datatype d (unit u) with the datatype overrides of the items en of a
+   Param(...) applied in the order of the dict *)
+Definition configured_dt (d : dtype) (u : str) (en : entry) : option dtype := fst (configured (Some d, u) en).
 
-Lemma leaf_setprop_conv d u k v d' u' : leaf_setprop d u k v = Some (d', u') -> forall x, dt_call d' x = dt_call d x.
+Lemma over_step_some s kv d : fst s = Some d -> exists d', fst (over_step s kv) = Some d'.
 Proof.
-  unfold leaf_setprop. intros H x. destruct d; try discriminate;
-    repeat match type of H with
+  intros H. unfold over_step. destruct (pprop_type param_props (fst kv)); [exists d; exact H|]. rewrite H.
+  destruct (dt_setprop d (snd s) (fst kv) (snd kv)) as [[d' u']|]; [exists d'; reflexivity|exists d; exact H].
+Qed.
+Lemma configured_some : forall en s d, fst s = Some d -> exists d', fst (configured s en) = Some d'.
+Proof.
+  induction en as [|kv en IH]; intros s d H; simpl; [exists d; exact H|].
+  destruct (over_step_some s kv d H) as [d1 H1]. apply (IH _ _ H1).
+Qed.
+Lemma configured_app s a b : configured s (a ++ b) = configured (configured s a) b.
+Proof. unfold configured. apply fold_left_app. Qed.
+
+(* min / max / unit never influence the conversion datatype(value); the length and character-set properties do *)
+Definition limit_key (k : str) : bool := str_eqb k k_min || str_eqb k k_max || str_eqb k k_unit.
+
+Ltac kill_key Hl :=
+  match goal with
+  | E : str_eqb ?k ?c = true |- _ => apply str_eqb_true in E; subst k; vm_compute in Hl; discriminate
+  end.
+
+Lemma leaf_setprop_conv d u k v d' u' : limit_key k = true -> leaf_setprop d u k v = Some (d', u') ->
+  forall x, dt_call d' x = dt_call d x.
+Proof.
+  unfold leaf_setprop. intros Hl H x. destruct d; try discriminate.
+  - repeat match type of H with
            | context[if ?b then _ else _] => destruct b
            | context[match ?r with _ => _ end] => destruct r; try discriminate
            end; inversion H; subst; reflexivity.
+  - repeat match type of H with
+           | context[if ?b then _ else _] => destruct b
+           | context[match ?r with _ => _ end] => destruct r; try discriminate
+           end; inversion H; subst; reflexivity.
+  - repeat match type of H with
+           | context[if ?b then _ else _] => destruct b
+           | context[match ?r with _ => _ end] => destruct r; try discriminate
+           end; inversion H; subst; reflexivity.
+  - destruct (str_eqb k k_minchars) eqn:E1; [kill_key Hl|]. destruct (str_eqb k k_maxchars) eqn:E2; [kill_key Hl|].
+    destruct (str_eqb k k_isutf8) eqn:E3; [kill_key Hl|]. discriminate.
+  - destruct (str_eqb k k_minbytes) eqn:E1; [kill_key Hl|]. destruct (str_eqb k k_maxbytes) eqn:E2; [kill_key Hl|].
+    discriminate.
 Qed.
 
-Lemma dt_setprop_conv d u k v d' u' : dt_setprop d u k v = Some (d', u') -> forall x, conv d' x = conv d x.
+Lemma dt_setprop_conv : forall d u k v d' u', limit_key k = true -> dt_setprop d u k v = Some (d', u') ->
+  forall x, conv d' x = conv d x.
 Proof.
-  unfold dt_setprop, conv. intros H x. destruct d; try (eapply leaf_setprop_conv; exact H).
-  destruct (leaf_setprop d u k v) as [[e' u2]|] eqn:E; [|discriminate]. inversion H; subst.
-  pose proof (leaf_setprop_conv _ _ _ _ _ _ E) as Hc. simpl.
+  unfold conv. induction d; intros u k v d' u' Hl H x; try (apply (leaf_setprop_conv _ u k v d' u' Hl H)).
+  simpl in H. destruct (str_eqb k k_minlen) eqn:E1; [kill_key Hl|]. destruct (str_eqb k k_maxlen) eqn:E2; [kill_key Hl|].
+  destruct (dt_setprop d u k v) as [[e' u2]|] eqn:E; [|discriminate]. inversion H; subst.
+  pose proof (IHd _ _ _ _ _ Hl E) as Hc. simpl.
   destruct (array_check minlen maxlen x); [|reflexivity]. simpl. destruct (py_iter x); [|reflexivity].
   assert (forall l, map_res (dt_call e') l = map_res (dt_call d) l) as ->; [|reflexivity].
   intros l0. induction l0; simpl; [reflexivity|]. rewrite Hc, IHl0. reflexivity.
+Qed.
+
+(* an entry that overrides only limits and unit (besides Parameter properties) leaves the conversion as it is *)
+Definition limits_only (en : entry) : bool :=
+  forallb (fun kv => match pprop_type param_props (fst kv) with Some _ => true | None => limit_key (fst kv) end) en.
+Lemma limits_only_conv : forall en d u d', limits_only en = true -> configured_dt d u en = Some d' ->
+  forall x, conv d' x = conv d x.
+Proof.
+  unfold configured_dt. induction en as [|[k v] en IH]; intros d u d' Hl H x; simpl in *.
+  - inversion H; subst. reflexivity.
+  - apply andb_true_iff in Hl. destruct Hl as [Hk Hl]. unfold over_step in H. simpl in H.
+    destruct (pprop_type param_props k); [apply (IH _ _ _ Hl H)|].
+    destruct (dt_setprop d u k v) as [[d1 u1]|] eqn:E; [|apply (IH _ _ _ Hl H)].
+    rewrite (IH _ _ _ Hl H). eapply dt_setprop_conv; eassumption.
 Qed.
 
 (* ------------------------------------------------------------------ what one cfg property can change *)
@@ -449,84 +501,124 @@ Record keeps (p p' : param) : Prop := {
   k_cmd : p_iscmd p' = p_iscmd p;
   k_hw : p_has_write p' = p_has_write p;
   k_wf : p_wfunc p' = p_wfunc p;
-  k_dt : conv_eq (p_dt p) (p_dt p');
 }.
 Lemma keeps_refl p : keeps p p.
-Proof. split; try reflexivity. apply conv_eq_refl. Qed.
+Proof. split; reflexivity. Qed.
 Lemma keeps_trans a b c : keeps a b -> keeps b c -> keeps a c.
-Proof.
-  intros [] []. split; try congruence. eapply conv_eq_trans; eassumption.
-Qed.
+Proof. intros [] []. split; congruence. Qed.
 
 Lemma value_is_param_prop : pprop_type param_props k_value <> None.
 Proof. vm_compute. discriminate. Qed.
 
-Ltac fin := repeat split; simpl; intros; try reflexivity; try apply conv_eq_refl; try congruence; try discriminate.
+Ltac fin Ep := repeat split; simpl; intros; try reflexivity; try congruence; try discriminate;
+  try (unfold over_step, dtu; simpl; rewrite Ep; reflexivity).
 
 Lemma param_setprop_inv p k v p' : param_setprop p k v = PGo p' ->
-  keeps p p' /\ (str_eqb k k_value = false -> p_value p' = p_value p) /\ (str_eqb k k_value = true -> p_value p' = Some v).
+  keeps p p' /\ dtu p' = over_step (dtu p) (k, v) /\
+  (str_eqb k k_value = false -> p_value p' = p_value p) /\ (str_eqb k k_value = true -> p_value p' = Some v).
 Proof.
   unfold param_setprop. destruct (pprop_type param_props k) as [t|] eqn:Ep.
-  - destruct (str_eqb k k_value) eqn:Ev. { intros H; inversion H; subst; fin. }
-    destruct (str_eqb k k_default). { intros H; inversion H; subst; fin. }
+  - destruct (str_eqb k k_value) eqn:Ev. { intros H; inversion H; subst; fin Ep. }
+    destruct (str_eqb k k_default). { intros H; inversion H; subst; fin Ep. }
     destruct (mp_validate t v) as [x|]; [|discriminate].
-    destruct (str_eqb k k_readonly). { destruct x; try discriminate; intros H; inversion H; subst; fin. }
-    destruct (str_eqb k k_needscfg). { destruct x; try discriminate; intros H; inversion H; subst; fin. }
-    destruct (str_eqb k k_visibility). { destruct x; try discriminate; intros H; inversion H; subst; fin. }
-    destruct (str_eqb k k_group). { destruct x; try discriminate; intros H; inversion H; subst; fin. }
-    destruct (str_eqb k k_description). { destruct x; try discriminate; intros H; inversion H; subst; fin. }
-    destruct (str_eqb k k_export). { destruct x; try discriminate; intros H; inversion H; subst; fin. }
+    destruct (str_eqb k k_readonly). { destruct x; try discriminate; intros H; inversion H; subst; fin Ep. }
+    destruct (str_eqb k k_needscfg). { destruct x; try discriminate; intros H; inversion H; subst; fin Ep. }
+    destruct (str_eqb k k_visibility). { destruct x; try discriminate; intros H; inversion H; subst; fin Ep. }
+    destruct (str_eqb k k_group). { destruct x; try discriminate; intros H; inversion H; subst; fin Ep. }
+    destruct (str_eqb k k_description). { destruct x; try discriminate; intros H; inversion H; subst; fin Ep. }
+    destruct (str_eqb k k_export). { destruct x; try discriminate; intros H; inversion H; subst; fin Ep. }
     discriminate.
   - destruct (str_eqb k k_value) eqn:Ev.
     { apply str_eqb_true in Ev. subst k. exfalso. apply value_is_param_prop. exact Ep. }
     destruct (p_dt p) as [d|] eqn:Ed.
     + destruct (dt_setprop d (p_unit p) k v) as [[d' u']|] eqn:Es; [|discriminate].
-      intros H; inversion H; subst. split; [|fin]. split; simpl; try reflexivity. rewrite Ed.
-      intros x. symmetry. eapply dt_setprop_conv. exact Es.
-    + intros H; inversion H; subst. fin.
+      intros H; inversion H; subst. split; [split; reflexivity|]. split; [|split; [reflexivity|discriminate]].
+      unfold over_step, dtu. simpl. rewrite Ep, Ed. simpl. rewrite Es. reflexivity.
+    + intros H; inversion H; subst. split; [apply keeps_refl|]. split; [|split; [reflexivity|discriminate]].
+      unfold over_step, dtu. simpl. rewrite Ep, Ed. reflexivity.
 Qed.
 
 Lemma prop_step_inv p k v p' : p_iscmd p = false -> prop_step (PGo p) (k, v) = PGo p' ->
-  keeps p p' /\ (str_eqb k k_value = false -> p_value p' = p_value p) /\ (str_eqb k k_value = true -> p_value p' = Some v)
+  keeps p p' /\ dtu p' = over_step (dtu p) (k, v) /\
+  (str_eqb k k_value = false -> p_value p' = p_value p) /\ (str_eqb k k_value = true -> p_value p' = Some v)
   /\ (mem_str k checked_value_props = true -> forall d, p_dt p = Some d -> exists c, conv d v = Ok c).
 Proof.
   intros Hc. unfold prop_step. rewrite Hc.
   destruct (mem_str k checked_value_props) eqn:Em.
   - destruct (p_dt p) as [d|] eqn:Ed.
     + destruct (conv d v) as [c|e] eqn:Ecv.
-      * intros H. apply param_setprop_inv in H. destruct H as [H1 [H2 H3]]. split; [exact H1|split; [exact H2|split; [exact H3|]]].
+      * intros H. apply param_setprop_inv in H. destruct H as [H1 [H0 [H2 H3]]].
+        split; [exact H1|split; [exact H0|split; [exact H2|split; [exact H3|]]]].
         intros _ d0 Hd. inversion Hd; subst. exists c. exact Ecv.
       * destruct (is_bad_value e); discriminate.
-    + intros H. apply param_setprop_inv in H. destruct H as [H1 [H2 H3]]. split; [exact H1|split; [exact H2|split; [exact H3|]]]. intros _ d0 Hd. discriminate.
-  - intros H. apply param_setprop_inv in H. destruct H as [H1 [H2 H3]]. split; [exact H1|split; [exact H2|split; [exact H3|]]]. intros; discriminate.
+    + intros H. apply param_setprop_inv in H. destruct H as [H1 [H0 [H2 H3]]].
+      split; [exact H1|split; [exact H0|split; [exact H2|split; [exact H3|]]]]. intros _ d0 Hd. discriminate.
+  - intros H. apply param_setprop_inv in H. destruct H as [H1 [H0 [H2 H3]]].
+    split; [exact H1|split; [exact H0|split; [exact H2|split; [exact H3|]]]]. intros; discriminate.
 Qed.
 
 (* the whole entry *)
 Lemma apply_entry_keep_cons p kv r :
   apply_entry_keep p (kv :: r) = match prop_step (PGo p) kv with PGo p' => apply_entry_keep p' r | x => (p, x) end.
 Proof. reflexivity. Qed.
+
+(* an entry that goes through as a whole goes through up to every position *)
+Lemma apply_entry_keep_split : forall pre p r p1, apply_entry_keep p (pre ++ r) = (p1, PGo p1) ->
+  exists pp, apply_entry_keep p pre = (pp, PGo pp) /\ apply_entry_keep pp r = (p1, PGo p1).
+Proof.
+  induction pre as [|kv pre IH]; intros p r p1 H; [exists p; split; [reflexivity|exact H]|].
+  rewrite <- app_comm_cons, apply_entry_keep_cons in H. rewrite apply_entry_keep_cons.
+  destruct (prop_step (PGo p) kv) as [| |p'] eqn:E; [inversion H|inversion H|]. apply IH. exact H.
+Qed.
+
 Lemma entry_inv : forall en p p1, p_iscmd p = false -> apply_entry_keep p en = (p1, PGo p1) ->
-  keeps p p1 /\
-  (forall k v d, In (k, v) en -> mem_str k checked_value_props = true -> p_dt p = Some d -> exists c, conv d v = Ok c) /\
+  keeps p p1 /\ dtu p1 = configured (dtu p) en /\
   (~ In k_value (map fst en) -> p_value p1 = p_value p) /\
   (forall v, NoDup (map fst en) -> In (k_value, v) en -> p_value p1 = Some v).
 Proof.
   induction en as [|[k v] en IH]; intros p p1 Hc H; [simpl in H|rewrite apply_entry_keep_cons in H].
-  - inversion H; subst. split; [apply keeps_refl|]. split; [intros ? ? ? []|]. split; [reflexivity|intros ? ? []].
+  - inversion H; subst. split; [apply keeps_refl|]. split; [reflexivity|]. split; [reflexivity|intros ? ? []].
   - destruct (prop_step (PGo p) (k, v)) as [| |p'] eqn:Es; [inversion H|inversion H|].
-    + destruct (prop_step_inv _ _ _ _ Hc Es) as [K [V0 [V1 Ck]]].
+    + destruct (prop_step_inv _ _ _ _ Hc Es) as [K [DU [V0 [V1 Ck]]]].
       assert (Hc' : p_iscmd p' = false) by (rewrite (k_cmd _ _ K); exact Hc).
-      destruct (IH p' p1 Hc' H) as [K2 [C2 [N2 D2]]].
+      destruct (IH p' p1 Hc' H) as [K2 [D2 [N2 V2]]].
       split; [eapply keeps_trans; eassumption|]. split; [|split].
-      * intros k0 v0 d [Heq|Hin] Hm Hd.
-        -- inversion Heq; subst. apply (Ck Hm d Hd).
-        -- pose proof (k_dt _ _ K) as Hq. rewrite Hd in Hq. destruct (p_dt p') as [d'|] eqn:Ed'; [|contradiction].
-           destruct (C2 k0 v0 d' Hin Hm eq_refl) as [c Hcv]. exists c. simpl in Hq. rewrite Hq. exact Hcv.
+      * simpl. rewrite <- DU. exact D2.
       * simpl. intros Hn. rewrite N2; [|intros Hi; apply Hn; right; exact Hi]. apply V0.
         destruct (str_eqb k k_value) eqn:E; [|reflexivity]. apply str_eqb_true in E. subst. exfalso. apply Hn. left. reflexivity.
       * intros v0 ND [Heq|Hin].
         -- inversion Heq; subst. simpl in ND. inversion ND; subst. rewrite N2; [|assumption]. apply V1. apply str_eqb_refl'.
-        -- simpl in ND. inversion ND; subst. apply D2; assumption.
+        -- simpl in ND. inversion ND; subst. apply V2; assumption.
+Qed.
+
+(* a value / default / constant at any position of an entry that goes through is a value of the datatype configured by
+   the items BEFORE it *)
+Lemma entry_checked p pre k v rest p1 d dpre : p_iscmd p = false -> p_dt p = Some d ->
+  apply_entry_keep p (pre ++ (k, v) :: rest) = (p1, PGo p1) -> mem_str k checked_value_props = true ->
+  configured_dt d (p_unit p) pre = Some dpre -> exists c, conv dpre v = Ok c.
+Proof.
+  intros Hc Hd H Hm Hpre. destruct (apply_entry_keep_split _ _ _ _ H) as [pp [H1 H2]].
+  destruct (entry_inv _ _ _ Hc H1) as [K [DU _]].
+  assert (Hcp : p_iscmd pp = false) by (rewrite (k_cmd _ _ K); exact Hc).
+  rewrite apply_entry_keep_cons in H2.
+  destruct (prop_step (PGo pp) (k, v)) as [| |p'] eqn:Es; [inversion H2|inversion H2|].
+  destruct (prop_step_inv _ _ _ _ Hcp Es) as [_ [_ [_ [_ Ck]]]].
+  apply (Ck Hm). unfold configured_dt in Hpre. unfold dtu in DU. rewrite Hd in DU.
+  rewrite <- DU in Hpre. exact Hpre.
+Qed.
+
+(* the value of an entry `pre ++ (value, v) :: rest` without a second `value` key *)
+Lemma entry_value p pre v rest p1 : p_iscmd p = false ->
+  apply_entry_keep p (pre ++ (k_value, v) :: rest) = (p1, PGo p1) -> ~ In k_value (map fst rest) -> p_value p1 = Some v.
+Proof.
+  intros Hc H Hn. destruct (apply_entry_keep_split _ _ _ _ H) as [pp [H1 H2]].
+  destruct (entry_inv _ _ _ Hc H1) as [K _].
+  assert (Hcp : p_iscmd pp = false) by (rewrite (k_cmd _ _ K); exact Hc).
+  rewrite apply_entry_keep_cons in H2.
+  destruct (prop_step (PGo pp) (k_value, v)) as [| |p'] eqn:Es; [inversion H2|inversion H2|].
+  destruct (prop_step_inv _ _ _ _ Hcp Es) as [K1 [_ [_ [V1 _]]]].
+  assert (Hc' : p_iscmd p' = false) by (rewrite (k_cmd _ _ K1); exact Hcp).
+  destruct (entry_inv _ _ _ Hc' H2) as [_ [_ [N2 _]]]. rewrite (N2 Hn). apply V1. apply str_eqb_refl'.
 Qed.
 
 (* ------------------------------------------------------------------ one accessible *)
@@ -558,8 +650,8 @@ Lemma post_keeps mexp p : keeps p (post mexp p) /\ p_value (post mexp p) = p_val
   p_export (post mexp p) <> XTrue.
 Proof.
   unfold post, fix_export. destruct mexp; simpl.
-  - destruct (p_export p) eqn:E; simpl; repeat split; try reflexivity; try apply conv_eq_refl; try rewrite E; discriminate.
-  - repeat split; try reflexivity; try apply conv_eq_refl. discriminate.
+  - destruct (p_export p) eqn:E; simpl; repeat split; try reflexivity; try rewrite E; discriminate.
+  - repeat split; try reflexivity. discriminate.
 Qed.
 Lemma post_cmd mexp p : p_iscmd (post mexp p) = p_iscmd p.
 Proof. destruct (post_keeps mexp p) as [K _]. exact (k_cmd _ _ K). Qed.
@@ -664,31 +756,44 @@ Proof.
 Qed.
 
 (* ------------------------------------------------------------------ the property-level statements *)
-Lemma value_applied C c i p d en v :
+(* the start value: Module._handle_writes stores datatype(value) through announceUpdate (the raw value stays when that
+   fails), Parameter.finish converts once more and clears a value that does not convert *)
+Definition start_value (d : dtype) (v : pyval) : option pyval :=
+  match conv d (match conv d v with Ok c => c | Err _ => v end) with Ok c2 => Some c2 | Err _ => None end.
+
+Lemma post_unit mexp p : p_unit (post mexp p) = p_unit p.
+Proof. unfold post, fix_export. destruct mexp; simpl; [destruct (p_export p); reflexivity|reflexivity]. Qed.
+
+Lemma value_applied C c i p d pre v rest :
   mod_init C c = Created i -> In p (c_params C) -> p_optional p = false -> p_iscmd p = false -> p_dt p = Some d ->
-  assoc_str (p_name p) c = Some (CDict en) -> NoDup (map fst en) -> In (k_value, v) en ->
-  exists p' d' c1, In p' (i_params i) /\ p_name p' = p_name p /\ p_dt p' = Some d' /\ (forall x, conv d x = conv d' x) /\
-    conv d v = Ok c1 /\ p_value p' = match conv d c1 with Ok c2 => Some c2 | Err _ => None end /\
-    (p_has_write p = true -> In (p_name p, v) (i_write i)).
+  assoc_str (p_name p) c = Some (CDict (pre ++ (k_value, v) :: rest)) -> ~ In k_value (map fst rest) ->
+  exists p' dv d' c1, In p' (i_params i) /\ p_name p' = p_name p /\
+    configured_dt d (p_unit p) pre = Some dv /\ conv dv v = Ok c1 /\
+    configured_dt d (p_unit p) (pre ++ (k_value, v) :: rest) = Some d' /\ p_dt p' = Some d' /\
+    p_value p' = start_value d' v /\
+    (p_has_write p = true -> In (p_name p, v) (i_write i)) /\ p_wfunc p' = p_wfunc p.
 Proof.
-  intros H Hin Ho Hc Hd Hcfg ND Hv.
-  destruct (created_param _ _ _ _ H Hin Ho Hc) as [mv [a [p1 [y [p' [Hs [He [Hh [Hf [Hp' [N1 [D1 [V1 [_ [_ [_ [Hw _]]]]]]]]]]]]]]]]].
+  intros H Hin Ho Hc Hd Hcfg Hn.
+  destruct (created_param _ _ _ _ H Hin Ho Hc) as [mv [a [p1 [y [p' [Hs [He [Hh [Hf [Hp' [N1 [D1 [V1 [_ [_ [_ [Hw W1]]]]]]]]]]]]]]]]].
   rewrite Hcfg in He.
-  destruct (entry_inv _ _ _ Hc He) as [K [Cv [_ Vv]]].
-  pose proof (Vv v ND Hv) as Hval.
-  destruct (Cv k_value v d Hv) as [c1 Hc1]; [vm_compute; reflexivity|exact Hd|].
+  destruct (entry_inv _ _ _ Hc He) as [K [DU _]].
+  pose proof (entry_value _ _ _ _ _ Hc He Hn) as Hval.
+  destruct (configured_some pre (Some d, p_unit p) d eq_refl) as [dv Hdv].
+  destruct (entry_checked _ _ _ _ _ _ _ _ Hc Hd He (eq_refl : mem_str k_value checked_value_props = true) Hdv) as [c1 Hc1].
   destruct (post_keeps (mexport mv) p1) as [K0 [PV [_ [_ [PD _]]]]].
   destruct (handle_writes_ok _ _ _ Hh) as [d1 [Hd1 [_ [Hd2 [Hn2 [Hc2 [_ Hm]]]]]]].
   rewrite PV, Hval in Hm. destruct Hm as [Hv2 Hw2]. rewrite PD in Hd1.
-  pose proof (k_dt _ _ K) as Hq. rewrite Hd, Hd1 in Hq. simpl in Hq.
+  assert (Hcfgd : configured_dt d (p_unit p) (pre ++ (k_value, v) :: rest) = Some d1).
+  { unfold configured_dt. unfold dtu in DU. rewrite Hd in DU. rewrite <- DU. exact Hd1. }
   assert (Hca : p_iscmd (a_param a) = false).
   { rewrite Hc2, (k_cmd _ _ K0), (k_cmd _ _ K). exact Hc. }
   destruct (finish_param_ok _ _ Hca Hf) as [Fn [Fd [_ [_ Fr]]]].
-  exists p', d1, c1. split; [exact Hp'|]. split; [|split; [|split; [exact Hq|split; [exact Hc1|split]]]].
+  exists p', dv, d1, c1. split; [exact Hp'|]. split; [|split; [exact Hdv|split; [exact Hc1|split; [exact Hcfgd|split; [|split; [|split; [|exact W1]]]]]]].
   - rewrite N1, Fn, Hn2, (k_name _ _ K0). apply (k_name _ _ K).
   - rewrite D1, Fd. exact Hd2.
-  - rewrite V1. rewrite Hd2, Hv2 in Fr. rewrite <- Hq, Hc1 in Fr. unfold refit in Fr. rewrite <- Hq in Fr.
-    destruct (conv d c1) as [c2|e]; [inversion Fr; reflexivity|]. destruct (is_bad_value e); [inversion Fr; reflexivity|discriminate].
+  - rewrite V1. rewrite Hd2, Hv2 in Fr. unfold refit in Fr. unfold start_value.
+    destruct (conv d1 (match conv d1 v with Ok c0 => c0 | Err _ => v end)) as [c2|e]; [inversion Fr; reflexivity|].
+    destruct (is_bad_value e); [inversion Fr; reflexivity|discriminate].
   - intros Hhw. assert (a_write a = Some v) as Hwa.
     { rewrite Hw2, (k_hw _ _ K0), (k_hw _ _ K), Hhw. reflexivity. }
     apply Hw in Hwa. rewrite Hn2, (k_name _ _ K0), (k_name _ _ K) in Hwa. exact Hwa.
@@ -703,16 +808,15 @@ Proof.
   rewrite EU in H0. destruct H0.
 Qed.
 
-Lemma wrong_type_rejected C c i p d en k v e :
+Lemma wrong_type_rejected C c i p d pre k v rest dpre e :
   In p (c_params C) -> p_optional p = false -> p_iscmd p = false -> p_dt p = Some d ->
-  assoc_str (p_name p) c = Some (CDict en) -> In (k, v) en -> mem_str k checked_value_props = true ->
-  conv d v = Err e -> mod_init C c <> Created i.
+  assoc_str (p_name p) c = Some (CDict (pre ++ (k, v) :: rest)) -> mem_str k checked_value_props = true ->
+  configured_dt d (p_unit p) pre = Some dpre -> conv dpre v = Err e -> mod_init C c <> Created i.
 Proof.
-  intros Hin Ho Hc Hd Hcfg Hkv Hm Hcv H.
+  intros Hin Ho Hc Hd Hcfg Hm Hpre Hcv H.
   destruct (created_param _ _ _ _ H Hin Ho Hc) as [mv [a [p1 [y [p' [Hs [He _]]]]]]].
   rewrite Hcfg in He.
-  destruct (entry_inv _ _ _ Hc He) as [_ [Cv _]].
-  destruct (Cv k v d Hkv Hm Hd) as [c1 Hc1]. rewrite Hcv in Hc1. discriminate.
+  destruct (entry_checked _ _ _ _ _ _ _ _ Hc Hd He Hm Hpre) as [c1 Hc1]. rewrite Hcv in Hc1. discriminate.
 Qed.
 
 Lemma raw_section_rejected C c i p v :
@@ -914,39 +1018,26 @@ Proof.
 Qed.
 
 (* a configured value of a parameter with a write wrapper: what its driver method receives during start-up *)
-Lemma configured_value_written C c i p d en v :
+Lemma configured_value_written C c i p d pre v rest :
   mod_init C c = Created i -> In p (c_params C) -> p_optional p = false -> p_iscmd p = false -> p_dt p = Some d ->
-  assoc_str (p_name p) c = Some (CDict en) -> NoDup (map fst en) -> In (k_value, v) en ->
+  assoc_str (p_name p) c = Some (CDict (pre ++ (k_value, v) :: rest)) -> ~ In k_value (map fst rest) ->
   NoDup (map p_name (active (c_params C))) -> p_has_write p = true ->
-  exists p' d', find_param (p_name p) (i_params i) = Some p' /\ p_dt p' = Some d' /\ (forall x, conv d x = conv d' x) /\
+  exists p' d', find_param (p_name p) (i_params i) = Some p' /\ p_dt p' = Some d' /\
+    configured_dt d (p_unit p) (pre ++ (k_value, v) :: rest) = Some d' /\
     has_thread i = true /\
     writes_for (p_name p) (startup i) = match valid d' v with Ok x => if p_wfunc p then [x] else [] | Err _ => [] end.
 Proof.
-  intros H Hin Ho Hc Hd Hcfg NDe Hv ND Hhw.
-  destruct (created_param _ _ _ _ H Hin Ho Hc) as [mv [a [p1 [y [p' [Hs [He [Hh [Hf [Hp' [N1 [D1 [V1 [_ [_ [_ [Hw W1]]]]]]]]]]]]]]]]].
-  rewrite Hcfg in He.
-  destruct (entry_inv _ _ _ Hc He) as [K [_ [_ Vv]]].
-  pose proof (Vv v NDe Hv) as Hval.
-  destruct (post_keeps (mexport mv) p1) as [K0 [PV [_ [_ [PD _]]]]].
-  destruct (handle_writes_ok _ _ _ Hh) as [d1 [Hd1 [_ [Hd2 [Hn2 [Hc2 [_ Hm]]]]]]].
-  rewrite PV, Hval in Hm. destruct Hm as [_ Hw2]. rewrite PD in Hd1.
-  pose proof (k_dt _ _ K) as Hq. rewrite Hd, Hd1 in Hq. simpl in Hq.
-  assert (Hca : p_iscmd (a_param a) = false).
-  { rewrite Hc2, (k_cmd _ _ K0), (k_cmd _ _ K). exact Hc. }
-  destruct (finish_param_ok _ _ Hca Hf) as [Fn [Fd _]].
-  assert (Hname : p_name p' = p_name p).
-  { rewrite N1, Fn, Hn2, (k_name _ _ K0). apply (k_name _ _ K). }
-  assert (Hwa : In (p_name p, v) (i_write i)).
-  { assert (a_write a = Some v) as Hwa by (rewrite Hw2, (k_hw _ _ K0), (k_hw _ _ K), Hhw; reflexivity).
-    apply Hw in Hwa. rewrite Hn2, (k_name _ _ K0), (k_name _ _ K) in Hwa. exact Hwa. }
+  intros H Hin Ho Hc Hd Hcfg Hn ND Hhw.
+  destruct (value_applied _ _ _ _ _ _ _ _ H Hin Ho Hc Hd Hcfg Hn) as [p' [dv [d1 [c1 [Hp' [Hname [_ [_ [Hcfgd [Hd' [_ [Hwa Hw']]]]]]]]]]]].
+  specialize (Hwa Hhw).
   pose proof (created_write_nodup _ _ _ H ND) as NW.
   assert (Hfind : find_param (p_name p) (i_params i) = Some p').
   { apply find_param_nodup; [rewrite (created_param_names _ _ _ H); exact ND|exact Hp'|exact Hname]. }
   assert (Ht : has_thread i = true).
   { unfold has_thread. destruct (i_write i); [destruct Hwa|]. apply orb_true_r. }
-  exists p', d1. split; [exact Hfind|]. split; [rewrite D1, Fd; exact Hd2|]. split; [exact Hq|]. split; [exact Ht|].
+  exists p', d1. split; [exact Hfind|]. split; [exact Hd'|]. split; [exact Hcfgd|]. split; [exact Ht|].
   rewrite (startup_writes _ _ NW), Ht, (assoc_str_nodup _ _ _ NW Hwa). unfold handed.
-  rewrite Hfind, D1, Fd, Hd2, W1. reflexivity.
+  rewrite Hfind, Hd', Hw'. reflexivity.
 Qed.
 
 (* ------------------------------------------------------------------ writeDict: the converse direction *)
@@ -1005,7 +1096,7 @@ Proof.
   induction en as [|[k x] en IH]; intros p p1 v Hc H Hv; [simpl in H; inversion H; subst; right; exact Hv|].
   rewrite apply_entry_keep_cons in H.
   destruct (prop_step (PGo p) (k, x)) as [| |p'] eqn:Es; [inversion H|inversion H|].
-  destruct (prop_step_inv _ _ _ _ Hc Es) as [K [V0 [V1 _]]].
+  destruct (prop_step_inv _ _ _ _ Hc Es) as [K [_ [V0 [V1 _]]]].
   assert (Hc' : p_iscmd p' = false) by (rewrite (k_cmd _ _ K); exact Hc).
   destruct (IH p' p1 v Hc' H Hv) as [Hi|Hp]; [left; right; exact Hi|].
   destruct (str_eqb k k_value) eqn:E.
@@ -1103,23 +1194,22 @@ Proof.
   apply in_or_app. left. apply in_flat_map. exists a. split; assumption.
 Qed.
 
-(* a value / default / constant of the wrong type is named, when the properties before it in the same Param entry
-   could be applied (the loop over one entry stops at its first failure) *)
-Lemma wrong_type_listed C c es p d pre k v rest p1 e : mod_init C c = Rejected es ->
-  In p (c_params C) -> p_optional p = false -> p_iscmd p = false -> p_dt p = Some d ->
+(* a value / default / constant that is not a value of the datatype configured by the items before it in the same Param
+   entry is named, when those items could be applied (the loop over one entry stops at its first failure) *)
+Lemma wrong_type_listed C c es p pre k v rest p1 d1 e : mod_init C c = Rejected es ->
+  In p (c_params C) -> p_optional p = false -> p_iscmd p = false ->
   assoc_str (p_name p) c = Some (CDict (pre ++ (k, v) :: rest)) -> apply_entry_keep p pre = (p1, PGo p1) ->
-  mem_str k checked_value_props = true -> conv d v = Err e -> is_bad_value e = true ->
+  mem_str k checked_value_props = true -> p_dt p1 = Some d1 -> conv d1 v = Err e -> is_bad_value e = true ->
   In (ErrBadValue (p_name p) k) es.
 Proof.
-  intros H Hin Ho Hc Hd Hcfg Hpre Hm Hcv Hb.
+  intros H Hin Ho Hc Hcfg Hpre Hm Ed1 Hcv Hb.
   destruct (rejected_inv _ _ _ H) as [mv [esA [accs [ps [EA [EB _]]]]]].
   destruct (phaseB_in _ _ _ _ _ EB Hin Ho) as [a [Ha Hs]].
   apply (acc_error_listed _ _ _ _ _ _ _ _ H EA Hin Ho Hs).
   destruct (entry_inv _ _ _ Hc Hpre) as [K _].
   assert (Hc1 : p_iscmd p1 = false) by (rewrite (k_cmd _ _ K); exact Hc).
-  pose proof (k_dt _ _ K) as Hq. rewrite Hd in Hq. destruct (p_dt p1) as [d1|] eqn:Ed1; [|contradiction]. simpl in Hq.
   assert (Hstep : prop_step (PGo p1) (k, v) = PErr (ErrBadValue (p_name p1) k)).
-  { unfold prop_step. rewrite Hc1, Hm, Ed1, <- Hq, Hcv, Hb. reflexivity. }
+  { unfold prop_step. rewrite Hc1, Hm, Ed1, Hcv, Hb. reflexivity. }
   assert (Happ : apply_entry_keep p (pre ++ (k, v) :: rest) = (p1, PErr (ErrBadValue (p_name p1) k))).
   { rewrite (apply_entry_keep_app _ _ _ _ Hpre), apply_entry_keep_cons, Hstep. reflexivity. }
   rewrite Hcfg in Hs. unfold acc_step in Hs. rewrite Happ in Hs. cbv zeta in Hs. rewrite post_cmd, Hc1 in Hs.
@@ -1253,3 +1343,92 @@ Proof.
     destruct (apply_main_keeps (main_unit ps) y) as [M1 [_ [_ [_ [_ [_ M7]]]]]].
     exists a. split; [exact Ha|]. rewrite Hna. unfold name_of. rewrite <- Fx, <- M7, Hx. left. congruence.
 Qed.
+
+(* ------------------------------------------------------------------ Param(value, overrides): the value is checked by, and
+   converted with, the CONFIGURED datatype *)
+Lemma dict_set_absent {A} k (v : A) : forall l, assoc_str k l = None -> dict_set k v l = l ++ [(k, v)].
+Proof.
+  induction l as [|[k' x] l IH]; simpl; intros H; [reflexivity|].
+  destruct (str_eqb k k'); [discriminate|]. rewrite (IH H). reflexivity.
+Qed.
+Lemma assoc_none_notin {A} k : forall (l : list (str * A)), assoc_str k l = None -> ~ In k (map fst l).
+Proof.
+  induction l as [|[k' x] l IH]; simpl; intros H; [tauto|].
+  destruct (str_eqb k k') eqn:E; [discriminate|]. intros [Hk|Hk]; [subst; rewrite str_eqb_refl' in E; discriminate|].
+  exact (IH H Hk).
+Qed.
+(* the dict a Param(v, kw) builds: the keyword overrides in their order, `value` last *)
+Lemma param_dict_some v kw : assoc_str k_value kw = None -> param_dict (Some v) kw = kw ++ [(k_value, v)].
+Proof. intros H. unfold param_dict. apply dict_set_absent. exact H. Qed.
+
+Lemma value_ptype : exists t, pprop_type param_props k_value = Some t.
+Proof. vm_compute. eexists. reflexivity. Qed.
+Lemma value_is_checked : mem_str k_value checked_value_props = true.
+Proof. vm_compute. reflexivity. Qed.
+
+Lemma over_step_value s v : over_step s (k_value, v) = s.
+Proof. unfold over_step. change (fst (k_value, v)) with k_value. destruct value_ptype as [t Ht]. rewrite Ht. reflexivity. Qed.
+Lemma configured_dt_value d u kw v : configured_dt d u (kw ++ [(k_value, v)]) = configured_dt d u kw.
+Proof.
+  unfold configured_dt. rewrite configured_app. unfold configured at 1. cbn [fold_left]. rewrite over_step_value. reflexivity.
+Qed.
+
+Lemma value_step p1 d v c1 : p_iscmd p1 = false -> p_dt p1 = Some d -> conv d v = Ok c1 ->
+  prop_step (PGo p1) (k_value, v) = PGo (set_value p1 (Some v)).
+Proof.
+  intros Hc Hd Hv. unfold prop_step. rewrite Hc, value_is_checked, Hd, Hv. unfold param_setprop.
+  destruct value_ptype as [t Ht]. rewrite Ht, str_eqb_refl'. reflexivity.
+Qed.
+
+Lemma value_checked C c p d v kw :
+  In p (c_params C) -> p_optional p = false -> p_iscmd p = false -> p_dt p = Some d ->
+  assoc_str k_value kw = None ->
+  assoc_str (p_name p) c = Some (CDict (param_dict (Some v) kw)) ->
+  exists dcfg, configured_dt d (p_unit p) kw = Some dcfg /\
+    (forall i, mod_init C c = Created i ->
+       exists p' c1, In p' (i_params i) /\ p_name p' = p_name p /\ p_dt p' = Some dcfg /\ conv dcfg v = Ok c1 /\
+         p_value p' = match conv dcfg c1 with Ok c2 => Some c2 | Err _ => None end /\
+         (p_has_write p = true -> In (p_name p, v) (i_write i))) /\
+    (forall e i, conv dcfg v = Err e -> mod_init C c <> Created i) /\
+    (forall e es p1, conv dcfg v = Err e -> is_bad_value e = true -> apply_entry_keep p kw = (p1, PGo p1) ->
+       mod_init C c = Rejected es -> In (ErrBadValue (p_name p) k_value) es) /\
+    (forall c1 p1 mexp, conv dcfg v = Ok c1 -> apply_entry_keep p kw = (p1, PGo p1) ->
+       exists a, acc_step mexp p (Some (CDict (param_dict (Some v) kw))) = Some a /\ a_errs a = [] /\
+         p_dt (a_param a) = Some dcfg /\ p_value (a_param a) = Some c1 /\
+         a_write a = (if p_has_write p then Some v else None)).
+Proof.
+  intros Hin Ho Hc Hd Hkw Hcfg. rewrite (param_dict_some _ _ Hkw) in *.
+  destruct (configured_some kw (Some d, p_unit p) d eq_refl) as [dcfg Hdc]. exists dcfg. split; [exact Hdc|].
+  assert (A1 : forall i, mod_init C c = Created i ->
+       exists p' c1, In p' (i_params i) /\ p_name p' = p_name p /\ p_dt p' = Some dcfg /\ conv dcfg v = Ok c1 /\
+         p_value p' = match conv dcfg c1 with Ok c2 => Some c2 | Err _ => None end /\
+         (p_has_write p = true -> In (p_name p, v) (i_write i))).
+  { intros i H.
+    destruct (value_applied _ _ _ _ _ _ _ [] H Hin Ho Hc Hd Hcfg (fun x => x))
+      as [p' [dv [d' [c1 [Hp' [Hn [Hdv [Hc1 [Hd' [Hpd [Hval [Hw _]]]]]]]]]]]].
+    rewrite configured_dt_value in Hd'. unfold configured_dt in Hdv, Hd', Hdc. rewrite Hdc in Hdv, Hd'.
+    inversion Hdv; subst dv. inversion Hd'; subst d'.
+    exists p', c1. repeat split; try assumption. rewrite Hval. unfold start_value. rewrite Hc1. reflexivity. }
+  assert (PD : forall p1, apply_entry_keep p kw = (p1, PGo p1) -> p_iscmd p1 = false /\ p_dt p1 = Some dcfg /\ keeps p p1).
+  { intros p1 Hpre. destruct (entry_inv _ _ _ Hc Hpre) as [K [DU _]]. split; [rewrite (k_cmd _ _ K); exact Hc|]. split; [|exact K].
+    unfold dtu in DU. rewrite Hd in DU. unfold configured_dt in Hdc. rewrite <- DU in Hdc. exact Hdc. }
+  split; [exact A1|]. split; [|split].
+  - intros e i He H. destruct (A1 i H) as [p' [c1 [_ [_ [_ [Hc1 _]]]]]]. rewrite He in Hc1. discriminate.
+  - intros e es p1 He Hb Hpre H. destruct (PD p1 Hpre) as [_ [Hd1 _]].
+    eapply wrong_type_listed; try eassumption. apply value_is_checked.
+  - intros c1 p1 mexp Hc1 Hpre. destruct (PD p1 Hpre) as [Hcp [Hd1 K]].
+    unfold acc_step. rewrite (apply_entry_keep_app _ _ _ _ Hpre), apply_entry_keep_cons, (value_step _ _ _ _ Hcp Hd1 Hc1).
+    simpl apply_entry_keep. cbv beta iota zeta.
+    set (q := set_value p1 (Some v)).
+    destruct (post_keeps mexp q) as [K0 [PV [_ [_ [PD0 _]]]]].
+    rewrite post_cmd. change (p_iscmd q) with (p_iscmd p1). rewrite Hcp.
+    unfold handle_writes. rewrite PD0, PV. change (p_dt q) with (p_dt p1). change (p_value q) with (Some v).
+    rewrite Hd1, Hc1. eexists. split; [reflexivity|]. simpl. split; [reflexivity|].
+    split; [rewrite PD0; exact Hd1|]. split; [reflexivity|].
+    rewrite (k_hw _ _ K0). change (p_has_write q) with (p_has_write p1). rewrite (k_hw _ _ K). reflexivity.
+Qed.
+
+(* the corollary in the old shape: as long as a Param entry overrides only limits and unit, the datatype of the instance
+   converts like the class-level datatype *)
+Lemma limits_only_app a b : limits_only (a ++ b) = limits_only a && limits_only b.
+Proof. unfold limits_only. apply forallb_app. Qed.
